@@ -6,16 +6,21 @@ from props import reconcile_common as rc, monitors, gen
 from props.c01 import first_free, py_slots
 
 TITLE = "Reconciliation converges to exactly the desired pods and then goes quiet"
-TECHNIQUE = ("Coq proof (a converged, in-sync world is a fixed point: no write; a settled in-sync world whose plan is empty and whose status is "
-             "consistent is converged: no stuck state) over the reconcile + environment model; convergence itself is NOT proved (partial): it is "
-             "checked on histories of the real controller (random interleavings of reconcile, kubelet, cache lag, faults, edits that stop; then a "
-             "fair suffix) by the monitor, and the environment model is tied to the code by per-op comparison of the world inside coqc")
+TECHNIQUE = ("Coq proof over the reconcile + environment model: a converged snapshot is a fixed point (no pod/claim write, all oracles); a settled snapshot whose "
+             "plan is empty is converged (no stuck state); a fair round strictly decreases the measure mu while the plan is non-empty, so the pod phase converges "
+             "within mu(pods) rounds from every well-formed snapshot (TerminationProofs.v). Tie: histories of the real controller (random interleavings of "
+             "reconcile, kubelet, cache lag, faults, edits that stop; then a fair suffix) compared with the environment model per op inside coqc; the abstract "
+             "round compared with the full model's round inside coqc; convergence monitor on the implementation")
 ASSUMPTIONS = [
-    "PARTIAL: termination of the fair suffix (convergence within a bound) is not proved in Coq; the monitor checks it on every generated history",
+    "PARTIAL: the step from the full reconcile model's round to the abstract round of TerminationProofs.v is evaluated inside coqc (family C02/round), not proved; "
+    "quietness of status / revision writes at the fixed point is decided by the monitor on every generated history, not proved",
     "API-server, kubelet and informer-cache semantics are modelled (Env.v, World.v), validated per op against the fake clientsets + harness reactors",
-    "premises of the property (WF): valid defaulted spec, canonical member names, no unclaimable pod holding a desired name, not paused / deleting",
+    "premises of the property (WF): valid defaulted spec (RollingUpdate carries a partition), canonical member names, no unclaimable pod holding a desired name, "
+    "not paused / deleting, no terminal-phase pod outside the desired set",
 ]
 IMPORTS = rc.IMPORTS + ["Env"]
+ROUND_IMPORTS = IMPORTS + ["TerminationProofs", "RoundCheck"]
+ROUND_OPS = 2 + 12 + 12      # refresh, reconcile, gone x names, settle x names
 KEV = {"run": "KRun", "ready": "KReady", "unready": "KUnready", "fail": "KFail", "succeed": "KSucceed", "gone": "KGone", "settle": "KSettle"}
 
 
@@ -64,7 +69,15 @@ def gen_ops(rng, api, n_chaos):
         if r < 0.33:
             if rng.random() < 0.12:
                 kind = rng.choice(["500", "notfound", "timeout", "timeout_applied", "exists"])
-                ops.append({"op": "reconcile", "faults": [{"at": rng.randint(0, 9), "kind": kind}]})
+                # faults are addressed by the SHAPE of the call, never by its index: the order of the adoption patches and of the
+                # claim creations follows Go map iteration (informer store, claim templates), so an index inside such a window
+                # would name a different call from run to run
+                pn = "%s-%d" % (s["name"], rng.randint(0, 6))
+                shape = rng.choice(["list controllerrevisions selector", "list controllerrevisions marker", "get statefulsets",
+                                    "update statefulsets/status", "update statefulsets/status", "create pods " + pn, "create pods " + pn,
+                                    "delete pods " + pn, "delete pods " + pn, "patch pods " + pn, "update pods " + pn,
+                                    "create persistentvolumeclaims data-" + pn])
+                ops.append({"op": "reconcile", "faults": [{"on": shape, "kind": kind}]})
             else:
                 ops.append({"op": "reconcile"})
         elif r < 0.55:
@@ -229,6 +242,7 @@ def run(ctx, depth):
             if op["op"] == "edit" and op["field"] == "partition":
                 part = op["int"]
         sc["_partition_final"] = max(part, 0)
+        sc["_prefix_len"] = len(ops)
         scs.append(sc)
     # "ready_if_live": the kubelet makes every pod that is not terminating and not in a terminal phase Running+Ready
     # it is expanded here against nothing (the harness treats `ready` on a missing / terminal pod as we model it)
@@ -267,6 +281,55 @@ def run(ctx, depth):
         start = "{| hw_api := %s; hw_cache := %s |}" % (rc.r_world(sc["api"]), rc.r_world(sc["cache"]))
         terms.append("{| hc_hashes := %s; hc_start := %s; hc_ops := [%s] |}" % (rc.r_hashes(rc.hashes_of(out)), start, "; ".join(pairs)))
         idx.append(i)
+    # the abstract round of TerminationProofs.v against the round of the full model (Env.v), on the worlds the
+    # real controller was in at the round boundaries of the fair suffix (and at the end of the chaotic prefix)
+    rterms, ridx = [], []
+    for i, (sc, out) in enumerate(zip(scs, outs)):
+        steps = out["steps"]
+        npre = sc["_prefix_len"]
+        base = copy.deepcopy(sc["api"]["set"])
+        base["rolling"] = {"partition": sc["_partition_final"]}
+        for j in range(0, 7 if quick else 12):
+            k = npre + ROUND_OPS * j - 1
+            if k < 0 or 2 * k + 1 >= len(steps):
+                continue
+            w = dump_world(steps[2 * k + 1], base)
+            if w["set"] is None:
+                continue
+            rterms.append("(%s, %s)" % (rc.r_hashes(rc.hashes_of(out)), rc.r_world(w)))
+            ridx.append((i, j))
+    n_obs = len(rterms)
+    # plus synthetic settled worlds (mixed: missing, failed, outdated, extra pods; never seen by the implementation): here the
+    # abstract round is compared with the round of the full model only, which the history family ties to the implementation
+    for _ in range(80 if quick else 3000):
+        api, _c = start_world(rng)
+        s0 = api["set"]
+        slots0 = py_slots((s0.get("ann") or {}).get("delete-slots")) or set()
+        desired0 = set(first_free(s0["replicas"], slots0))
+        pods = []
+        for p in api["pods"]:
+            if p["term"]:
+                continue
+            p = dict(p, owner={"kind": "StatefulSet", "name": s0["name"], "uid": s0["uid"], "controller": True})
+            if p["phase"] in ("Failed", "Succeeded"):
+                if monitors.parse_name(p["name"])[1] not in desired0:
+                    continue
+            else:
+                p.update(phase="Running", ready=True)
+            pods.append(p)
+        api["pods"] = pods
+        rterms.append("(%s, %s)" % (rc.r_hashes(gen.init_hashes()), rc.r_world(api)))
+        ridx.append((None, None))
+    rbad = core.coq_mismatches("C02_round", ROUND_IMPORTS, "round_case", "round_ok", rterms, shard_size=8, timeout=1500)
+    rskip = core.coq_mismatches("C02_roundc", ROUND_IMPORTS, "round_case", "round_compared", rterms, shard_size=8, timeout=1500)
+    for j in rbad[:4]:
+        i, rj = ridx[j]
+        mv = core.coq_eval("mm_C02r", ROUND_IMPORTS, ["round_model (fst %s) (snd %s)" % (rterms[j], rterms[j])])
+        ctx.corr_breaks.append({"family": "C02/round", "input": ({k: v for k, v in scs[i].items() if not k.startswith("_")} if i is not None else None),
+                                "world_term": rterms[j][:4000], "round": rj, "model": " ".join(mv)[:1500]})
+    ctx.families["C02/round"] = {"worlds": len(rterms), "observed_in_histories": n_obs, "synthetic_settled": len(rterms) - n_obs, "compared (inside the theorem's hypotheses)": len(rterms) - len(rskip),
+                                 "skipped (not settled / not well-formed)": len(rskip) - len(rbad), "mismatches": len(rbad)}
+    ctx.count("round-worlds-compared", len(rterms) - len(rskip))
     mm = core.coq_mismatches("C02_hist", IMPORTS, "hist_case", "hist_check", terms, shard_size=2, timeout=1500)
     for j in mm[:6]:
         i = idx[j]
